@@ -139,7 +139,7 @@ def generate(ctx, rng):
         for d in range(0, dmax + 1):
             for combo in itertools.product(range(len(alpha)), repeat=d):
                 yield ("ex", pi, combo), {"profile": list(profile), "ops": [alpha[i] for i in combo] + [["apply"], ["refresh"]]}
-    for j in range(900 if quick else 150000):
+    for j in range(900 if quick else 300000):
         profile = rng.choice(PROFILES)
         alpha = _alphabet(profile, full=True)
         n = rng.randint(3, 20)
@@ -155,7 +155,7 @@ def generate(ctx, rng):
             a, b = rng.choice(sets), rng.choice(sets)
             if a[1] != b[1] and not ({a[1], b[1]} <= {"breeze_away", "breeze_mild", "breezeless"}):
                 ops[k:k] = [a, ["apply-while-setting", b[1], b[2]], ["refresh"]]
-        yield ("rnd", j), {"profile": list(profile), "ops": ops + [["apply"], ["refresh"]]}
+        yield ("rnd", j), {"profile": list(profile), "ops": ops + [["apply"], ["refresh"]], "clone": [None, None, None, "deepcopy", None, "pickle"][j % 6]}
 
 
 def _setting_id(profile, name):
@@ -206,6 +206,7 @@ def run_case(ctx, case):
     viol = []
     stats = {"apply": 0, "readback": 0, "readback2": 0}
     slow = {"on": False}
+    keep = {}
 
     def on_exchange(conn, req, packets, meta):
         from ..ref import acframe
@@ -218,6 +219,12 @@ def run_case(ctx, case):
 
     async def go(loop):
         ac = AC(ip=dev.host, port=dev.port, device_id=dev.device_id)
+        if case.get("clone"):
+            # the application keeps a never-connected template object and works with copies of it
+            import copy
+            import pickle
+            keep["template"] = ac
+            ac = copy.deepcopy(ac) if case["clone"] == "deepcopy" else (copy.copy(ac) if case["clone"] == "copy" else pickle.loads(pickle.dumps(ac)))
         await ac.get_capabilities()
         await ac.refresh()
         fresh = set()      # settings changed since the last apply or refresh
